@@ -166,7 +166,7 @@ func runResCase(t *testing.T, s *Stream, c resCase) {
 			time.Sleep(time.Millisecond)
 			mac := net.HardwareAddr{2, 0, 0, 0, 0, 0x77}
 			seg.Inject(0x0800, MsgSpec{Type: 1, MAC: mac, Xid: 1}.Frame())
-			time.Sleep(800 * time.Millisecond)
+			time.Sleep(3 * time.Second) // after the DISCOVER's handler is done: overlapping handlers block on the IPDB mutex, which freezes a synctest bubble
 			seg.Inject(0x0800, MsgSpec{Type: 3, MAC: mac, Xid: 2, ReqIP: net.IPv4(10, 0, 0, 9), SrvID: net.IPv4(10, 0, 0, 1)}.Frame())
 			seg.Inject(0x0800, MsgSpec{Type: 3, MAC: mac, Xid: 3, ReqIP: net.IPv4(10, 0, 0, 77), SrvID: net.IPv4(10, 0, 0, 1)}.Frame())
 		}()
